@@ -34,10 +34,13 @@ func (s *sender) SendPackets(ctx context.Context, in <-chan *BufferData) (<-chan
 	errc := make(chan error, 100)
 	go func() {
 		defer func() {
+			VfGate("s.close", nil, nil)
 			close(done)
 			close(errc)
+			VfGate("s.exit", nil, nil)
 		}()
 		for {
+			VfGate("s.recv", nil, nil)
 			select {
 			case <-ctx.Done():
 				return
@@ -46,12 +49,16 @@ func (s *sender) SendPackets(ctx context.Context, in <-chan *BufferData) (<-chan
 					return
 				}
 				if pkt.Err != nil {
+					VfGate("s.errsend", nil, pkt.Err)
 					errc <- pkt.Err
 					continue
 				}
+				VfGate("s.write", nil, pkt.Buf)
 				if err := s.w.WritePacketData(pkt.Buf.Bytes()); err != nil {
+					VfGate("s.errsend", nil, err)
 					errc <- err
 				}
+				VfGate("s.free", nil, pkt.Buf)
 				if err := FreeSerializeBuffer(pkt.Buf); err != nil {
 					errc <- err
 				}
